@@ -13,22 +13,22 @@ impl Clone for Flag {
 //@ header
 pub fn raised(&self, env: &mut FEnv) -> (r: bool)
     requires wf_flag(self, old(env)),
-    ensures r == old(env).set@[fid(self)], *final(env) == *old(env), // OBL:C07.flag.raised_reads_the_flag
+    ensures r == old(env).set@[fid(self)], *final(env) == *old(env), // OBL:C07+C08.flag.raised_reads_the_flag
 //@ item Flag::raise
 //@ header
 pub fn raise(&self, env: &mut FEnv)
     requires wf_flag(self, old(env)),
     ensures
-        known(final(env), fid(self)) && final(env).set@[fid(self)], // OBL:C07.flag.raise_sets
+        known(final(env), fid(self)) && final(env).set@[fid(self)], // OBL:C07+C08.flag.raise_sets
         // every task registered as waiting on this flag is woken, however many there are
-        forall|i: int| 0 <= i < old(env).registered@[fid(self)].len() ==> final(env).woken@.contains(#[trigger] old(env).registered@[fid(self)][i]), // OBL:C07.flag.raise_wakes_every_waiter
+        forall|i: int| 0 <= i < old(env).registered@[fid(self)].len() ==> final(env).woken@.contains(#[trigger] old(env).registered@[fid(self)][i]), // OBL:C07+C08.flag.raise_wakes_every_waiter
         forall|t: int| old(env).woken@.contains(t) ==> final(env).woken@.contains(t),
 //@ loop 0 iter=vx_it
 let ghost vx_l = *env; let ghost vx_ws = wakers@;
 invariant
     vx_it.seq() == vx_ws, 0 <= vx_it.index@ <= vx_ws.len(), env.set == vx_l.set, env.registered == vx_l.registered, vx_ws.len() == old(env).registered@[fid(self)].len(),
     forall|i: int| #![trigger vx_ws[i]] #![trigger old(env).registered@[fid(self)][i]] 0 <= i < vx_ws.len() ==> vx_ws[i].task == old(env).registered@[fid(self)][i],
-    forall|i: int| 0 <= i < vx_it.index@ ==> env.woken@.contains((#[trigger] vx_ws[i]).task), // OBL:C07.flag.inv_every_waker_so_far_woken
+    forall|i: int| 0 <= i < vx_it.index@ ==> env.woken@.contains((#[trigger] vx_ws[i]).task), // OBL:C07+C08.flag.inv_every_waker_so_far_woken
     forall|t: int| vx_l.woken@.contains(t) ==> env.woken@.contains(t),
 //@ item Flag::poll
 //@ header
@@ -36,16 +36,16 @@ pub fn poll(&mut self, cx: &mut Context, env: &mut FEnv) -> (r: Poll<()>)
     requires wf_flag(old(self), old(env)),
     ensures
         *final(self) == *old(self), final(cx).task == old(cx).task,
-        old(env).set@[fid(old(self))] ==> r is Ready, // OBL:C07.flag.poll_ready_once_raised
-        r is Ready ==> final(env).set@[fid(old(self))], // OBL:C07.flag.poll_ready_only_if_raised
+        old(env).set@[fid(old(self))] ==> r is Ready, // OBL:C07+C08.flag.poll_ready_once_raised
+        r is Ready ==> final(env).set@[fid(old(self))], // OBL:C07+C08.flag.poll_ready_only_if_raised
         // a task told to wait is registered, so the next raise wakes it
-        r is Pending ==> !final(env).set@[fid(old(self))] && reg_contains(final(env).registered@[fid(old(self))], old(cx).task), // OBL:C07.flag.pending_poll_is_registered
+        r is Pending ==> !final(env).set@[fid(old(self))] && reg_contains(final(env).registered@[fid(old(self))], old(cx).task), // OBL:C07+C08.flag.pending_poll_is_registered
         // nobody's registration is lost, on this flag or any other
-        forall|g: int, t: int| old(env).registered@.contains_key(g) && reg_contains(old(env).registered@[g], t) ==> final(env).registered@.contains_key(g) && #[trigger] reg_contains(final(env).registered@[g], t), // OBL:C07.flag.poll_keeps_other_waiters
+        forall|g: int, t: int| old(env).registered@.contains_key(g) && reg_contains(old(env).registered@[g], t) ==> final(env).registered@.contains_key(g) && #[trigger] reg_contains(final(env).registered@[g], t), // OBL:C07+C08.flag.poll_keeps_other_waiters
         forall|g: int| old(env).registered@.contains_key(g) ==> final(env).registered@.contains_key(g),
         final(env).set == old(env).set, final(env).woken == old(env).woken,
 //@ closure 0
-|waker: &Waker| -> (vx_b: bool) ensures vx_b ==> waker.task == cx.task /* OBL:C07.flag.pending_poll_is_registered */
+|waker: &Waker| -> (vx_b: bool) ensures vx_b ==> waker.task == cx.task /* OBL:C07+C08.flag.pending_poll_is_registered */
 //@ closure_ghost 0
 Ghost(|vx_t: int| vx_t == cx.task)
 //@ item Ticket::poll
@@ -54,9 +54,9 @@ pub fn poll(&mut self, cx: &mut Context, env: &mut FEnv) -> (r: Poll<()>)
     requires wf_flag(&old(self).job_gone, old(env)), wf_flag(&old(self).control_done, old(env)),
     ensures
         // a ticket is ready exactly when its control is done or its job is gone
-        r is Ready <==> (old(env).set@[fid(&old(self).job_gone)] || old(env).set@[fid(&old(self).control_done)]), // OBL:C07+C09.ticket.ready_iff_control_done_or_job_gone
+        r is Ready <==> (old(env).set@[fid(&old(self).job_gone)] || old(env).set@[fid(&old(self).control_done)]), // OBL:C07+C09+C08.ticket.ready_iff_control_done_or_job_gone
         // a task told to wait is registered on BOTH flags: the end of the job wakes it as well as the completion of the control
         r is Pending ==> reg_contains(final(env).registered@[fid(&old(self).job_gone)], old(cx).task)
-            && reg_contains(final(env).registered@[fid(&old(self).control_done)], old(cx).task), // OBL:C07+C09.ticket.pending_poll_waits_on_both_flags
+            && reg_contains(final(env).registered@[fid(&old(self).control_done)], old(cx).task), // OBL:C07+C09+C08.ticket.pending_poll_waits_on_both_flags
         final(env).set == old(env).set, final(env).woken == old(env).woken,
 //@ end
